@@ -8,6 +8,7 @@
 from __future__ import annotations
 
 import collections
+import itertools
 import logging
 import operator
 import sys
@@ -38,6 +39,7 @@ from ampform.dynamics.builder import (
 from ampform.helicity.align import NoAlignment, SpinAlignment
 from ampform.helicity.decay import (
     TwoBodyDecay,
+    get_outer_state_ids,
     get_prefactor,
     group_by_spin_projection,
     group_by_topology,
@@ -454,7 +456,40 @@ class HelicityAmplitudeBuilder:
 
         amplitude = self.config.spin_alignment.formulate_amplitude(self.reaction)
         spin_projections = collect_spin_projections(self.reaction)
-        return PoolSum(sp.Abs(amplitude) ** 2, *spin_projections.items())
+        intensity = PoolSum(sp.Abs(amplitude) ** 2, *spin_projections.items())
+        self.__register_vanishing_amplitudes(intensity, spin_groups)
+        return intensity
+
+    def __register_vanishing_amplitudes(
+        self, intensity: PoolSum, spin_groups: list[list[StateTransition]]
+    ) -> None:
+        """Set amplitudes to zero if there are no transitions for their helicities.
+
+        The (aligned) intensity sums over all combinations of spin projections, but
+        `~qrules.transition.ReactionInfo` does not necessarily contain a transition for
+        each combination.
+        """
+        outer_state_ids = get_outer_state_ids(self.reaction)
+        n_initial = len(self.reaction.initial_state)
+        outer_particles = {**self.reaction.initial_state, **self.reaction.final_state}
+        names = [outer_particles[i].name for i in outer_state_ids]
+
+        def get_group_key(helicities: Iterable[sp.Basic]) -> tuple:
+            states = [(n, sp.Rational(h)) for n, h in zip(names, helicities)]
+            return (*sorted(states[:n_initial]), None, *sorted(states[n_initial:]))
+
+        existing_groups = {
+            get_group_key(
+                sp.Rational(group[0].states[i].spin_projection)
+                for i in outer_state_ids
+            )
+            for group in spin_groups
+        }
+        for symbol in _collect_amplitude_symbols(intensity):
+            if symbol in self.__ingredients.amplitudes:
+                continue
+            if get_group_key(symbol.indices) not in existing_groups:
+                self.__ingredients.amplitudes[symbol] = sp.S.Zero
 
     def __register_amplitudes(self, transition_group: list[StateTransition]) -> None:
         transition_by_topology = group_by_topology(transition_group)
@@ -576,6 +611,22 @@ class HelicityAmplitudeBuilder:
                     if coefficient_suffix != raw_suffix:
                         return sp.Rational(prefactor)
         return None
+
+
+def _collect_amplitude_symbols(intensity: sp.Expr) -> set[sp.Indexed]:
+    """Collect the amplitude symbols that appear once all `.PoolSum` are unfolded."""
+    pools: dict[sp.Basic, tuple[sp.Basic, ...]] = {}
+    for node in sp.preorder_traversal(intensity):
+        if isinstance(node, PoolSum):
+            pools.update(dict(node.indices))
+    symbols: set[sp.Indexed] = set()
+    for amplitude in intensity.atoms(sp.Indexed):
+        indices = sorted(amplitude.free_symbols & set(pools), key=str)
+        for values in itertools.product(*(pools[i] for i in indices)):
+            symbol = amplitude.xreplace(dict(zip(indices, values)))
+            if all(i.is_number for i in symbol.indices):
+                symbols.add(symbol)
+    return symbols
 
 
 def _perform_combinatorics(
